@@ -2,7 +2,7 @@
     tag (two memory maps: the first wins), its placement, and the concrete decoder runs. *)
 From Coq Require Import NArith List Bool.
 From FF Require Import Lib.Word Gen.Consts_multiboot Multiboot.Model Multiboot.Spec Multiboot.MemLemmas
-  Multiboot.FindProofs Multiboot.Case.
+  Multiboot.FindProofs Multiboot.AfterVisit Multiboot.Case.
 Import ListNotations.
 Local Open Scope N_scope.
 
@@ -122,3 +122,16 @@ Example C10_run_case_flag :
   hd 9 (run_case ([0; 0xffff; 0x200200000000; 0xe20] ++ enc_list (encode ex_mb) ++ [0x300200000000; 0xfef] ++ enc_list ex_strtab ++
         [0; 1; 100; 5; 3; 1; 2; 3; 5; 0; 0; 0; 0; 0])) = 0.
 Proof. vm_compute. reflexivity. Qed.
+
+(** after the scan stopped at the second region: entries 0 and 1 are normalised in memory (type 5 -> 2),
+    entry 2 (type 0) is still as encoded; the block is a different one of the same length *)
+Example C10_after_visit_example :
+  first_tag sel_memmap (mb_tags (after_visit (fun i _ => negb (i =? 1)) ex_mb)) =
+    Some (28, 0, [ mkEntry 0 0x9fc00 1 [0; 0; 0; 0; 9; 9; 9; 9];
+                   mkEntry 0x100000 0x7ee0000 2 [0; 0; 0; 0; 9; 9; 9; 9];
+                   mkEntry 0xfffc0000 0x40000 0 [0; 0; 0; 0; 9; 9; 9; 9];
+                   mkEntry 0x7fe0000 0x20000 3 [0; 0; 0; 0; 9; 9; 9; 9] ]) /\
+  encode (after_visit (fun i _ => negb (i =? 1)) ex_mb) <> encode ex_mb /\
+  fst (fst (visit_mem_regions 10 (fun i _ => negb (i =? 1)) (mem_of ex_layout (encode ex_mb)) (l_info ex_layout))) =
+    mem_of ex_layout (encode (after_visit (fun i _ => negb (i =? 1)) ex_mb)).
+Proof. split; [vm_compute; reflexivity|]. split; [vm_compute; discriminate | vm_compute; reflexivity]. Qed.
